@@ -423,7 +423,7 @@ def run(ctx):
             spec = dict(stream_hex=stream.hex(), model=model, n_messages=len(expected), definitions=stats['defs'],
                         extra_segments=[(fl, sg.hex()) for fl, sg in stats.get('extra_segments', [])])
             try:
-                variant = ['default', 'lookahead', 'filter', 'continue', 'unwired', 'lookahead', 'default', 'filter'][q % 8]
+                variant = ['default', 'lookahead', 'filter', 'compiling', 'continue', 'unwired', 'lookahead', 'compiling', 'default', 'filter'][q % 10]
                 ctx.add('scan_variants', variant)
                 spec['scan_variant'] = variant
                 p = subprocess.run([sys.executable, '-m', 'mon.c20_runner', hf, variant], capture_output=True, timeout=180, env=env,
@@ -520,7 +520,8 @@ def run(ctx):
                         lab = em.subsets[bad[1]].labels[bad[2]]
                         defined = lab[0] == '0' and 48 <= int(lab[1:3]) <= 63
                         kind = '/%s-%s' % ('defined' if defined else 'standard', me[0] if me else '?')
-                    ctx.violate('data-after-definition/%s%s/%s%s' % (why, kind, multi, '/rep-only' if em.uses_rep_only else ''),
+                    ctx.violate('data-after-definition/%s%s/%s%s%s' % (why, kind, multi, '/rep-only' if em.uses_rep_only else '',
+                                                                        '/compiling-decoder' if variant == 'compiling' else ''),
                                 'message %d (ids %r) decoded after the definitions differs from the model in %s: %r'
                                 % (mi, em.ids, why, jsonable(bad[1:])), dict(spec, message_index=mi, ids=em.ids))
     finally:
